@@ -82,6 +82,33 @@ def body_kdq(ctx, n, m, d, which, lbound=0, box=None):
     ctx.witness("checked")
 
 
+def body_kdq_bulk(ctx, total, k_sym, d):
+    """Large test batches: `total` rows of which k_sym are symbolic (anywhere in value space) and the rest concrete,
+    filed in several row orders against a concrete reference tree.  Size-dependent code paths (chunking, buffering,
+    early exits at a row limit) are executed for real; the solver places the symbolic rows in every cell."""
+    M = importlib.import_module("menelaus.partitioners.KDQTreePartitioner")
+    rs = np.random.RandomState(7)
+    R = np.round(rs.rand(12, d) * 8, 2)
+    rows = [[ctx.real(f"t{i}_{j}") for j in range(d)] for i in range(k_sym)]
+    rows += [list(map(float, r)) for r in np.round(rs.rand(total - k_sym, d) * 8, 2)]
+    T = obj_array(rows)
+    with rebind(M, np=c08._np_shim()):
+        base = M.KDQTreePartitioner(count_ubound=2, cutpoint_proportion_lbound=0)
+        base.build(R)
+        base.fill(T, "test", reset=True)
+        t0 = base.leaf_counts("test")
+        ctx.prove(sum(t0) == total, "every-row-of-a-large-batch-is-counted-once")
+        orders = {
+            "reversed": list(range(total))[::-1],
+            "symbolic-rows-last": list(range(k_sym, total)) + list(range(k_sym)),
+            "rotated-by-a-third": list(range(total // 3, total)) + list(range(total // 3)),
+        }
+        for name, p in orders.items():
+            base.fill(T[p], "test", reset=True)
+            ctx.prove(base.leaf_counts("test") == t0, "leaf-counts-invariant-under-test-row-order")
+    ctx.witness("checked")
+
+
 def body_hdm(ctx, features, which, second, nr=4, stride=5):
     M = importlib.import_module("menelaus.data_drift.histogram_density_method")
     from menelaus.data_drift import HDDDM, CDBD
@@ -204,6 +231,10 @@ def jobs(tier):
     q = tier == "quick"
     out = []
     nmax = 3 if q else 4
+    # large batches (seed C18-7: block-wise filing that reset the counts per block of 4096 rows)
+    for total, k, d in ((4100, 2, 1), (5000, 1, 2)) if q else ((4100, 2, 1), (5000, 2, 2), (9000, 2, 1), (20000, 1, 2)):
+        out.append(Job(f"kdq-bulk-{total}rows-{k}sym-{d}d", "checks.c18:body_kdq_bulk", {"total": total, "k_sym": k, "d": d},
+                       expect=("checked",), opts={"validate": 1}))
     for d in (1, 2):
         for n in range(2, nmax + 1):
             for m in range(2, nmax + 1):
